@@ -221,15 +221,95 @@ theorem isDigits_nodot (s : Text) (h : isDigits s = true) : ∀ c ∈ s, c ≠ '
 theorem isDigits_ne_nil (s : Text) (h : isDigits s = true) : s ≠ [] := by
   intro e; subst e; simp [isDigits] at h
 
-/-! ### the unsigned parser on the two shapes of a pattern member -/
+/-! ### the parser on the two shapes of a pattern member
 
-theorem parseUnsigned_int (u : Text) (h : isDigits u = true) :
-    parseUnsigned u =
-      if natOfDigits u ≥ 9223372036854775808 then .error .major else .ok ((natOfDigits u : Int), 0) := by
-  unfold parseUnsigned
-  rw [splitOn_nosep '.' u (isDigits_nodot u h)]
-  simp only [List.length_singleton, show ¬ (1 > 2) by decide, if_false, parseInt64_digits u h]
-  by_cases hr : natOfDigits u ≥ 9223372036854775808
+`AmountFromString` splits the whole text, so the minus sign stays on the major
+part.  The lemmas below speak about the sign `n` and the text `u` after it. -/
+
+/-- a text with its optional minus sign put back -/
+def sgn (n : Bool) (u : Text) : Text := if n then '-' :: u else u
+
+/-- the largest magnitude on either side of zero: 2^63 below, 2^63−1 above -/
+def lim (n : Bool) : Nat := if n then 9223372036854775808 else 9223372036854775807
+
+/-- a magnitude with its sign -/
+def sg (n : Bool) (k : Nat) : Int := if n then -(k : Int) else (k : Int)
+
+/-- `AmountFromString` on the sign `n` and the text `u` after it -/
+def parseBody (n : Bool) (u : Text) : Except Err Amount := parseParts n (splitOn '.' (sgn n u))
+
+theorem digits_no_minus (A x : Text) (h : isDigits A = true) :
+    hasPrefixMinus (A ++ x) = false ∧ trimPrefixMinus (A ++ x) = A ++ x := by
+  cases A with
+  | nil => simp [isDigits] at h
+  | cons c r =>
+    have hc : isDigitC c = true := by
+      unfold isDigits at h; simp at h; exact h.1
+    have := (isDigitC_not_sign c hc).2.1
+    simp [hasPrefixMinus, trimPrefixMinus, this]
+
+theorem digits_no_minus' (A : Text) (h : isDigits A = true) :
+    hasPrefixMinus A = false ∧ trimPrefixMinus A = A := by
+  have := digits_no_minus A [] h
+  simpa using this
+
+theorem parseInt64_neg_digits (s : Text) (h : isDigits s = true) :
+    parseInt64 ('-' :: s) =
+      if natOfDigits s > 9223372036854775808 then .error .range else .ok (-(natOfDigits s : Int)) := by
+  unfold parseInt64
+  simp [h]
+
+theorem parseInt64_sgn (n : Bool) (s : Text) (h : isDigits s = true) :
+    parseInt64 (sgn n s) = if natOfDigits s > lim n then .error .range else .ok (sg n (natOfDigits s)) := by
+  cases n
+  · simp only [sgn, lim, sg, Bool.false_eq_true, if_false]
+    rw [parseInt64_digits s h]
+    by_cases hr : natOfDigits s ≥ 9223372036854775808
+    · have : natOfDigits s > 9223372036854775807 := by omega
+      simp [hr, this]
+    · have : ¬ natOfDigits s > 9223372036854775807 := by omega
+      simp [hr, this]
+  · simp only [sgn, lim, sg, if_true]
+    exact parseInt64_neg_digits s h
+
+theorem trim_sgn (n : Bool) (s : Text) (h : isDigits s = true) : trimPrefixMinus (sgn n s) = s := by
+  cases n
+  · exact (digits_no_minus' s h).2
+  · rfl
+
+theorem sgn_nodot (n : Bool) (s : Text) (h : ∀ c ∈ s, c ≠ '.') : ∀ c ∈ sgn n s, c ≠ '.' := by
+  cases n
+  · exact h
+  · intro c hc
+    simp only [sgn, if_true, List.mem_cons] at hc
+    rcases hc with rfl | hc
+    · decide
+    · exact h c hc
+
+theorem natOfDigits_lt (s : Text) (h : s.all isDigitC = true) : natOfDigits s < 10 ^ s.length := by
+  induction s with
+  | nil => simp [natOfDigits]
+  | cons c cs ih =>
+    simp only [List.all_cons, Bool.and_eq_true] at h
+    have hc : digitVal c ≤ 9 := by
+      have := h.1
+      unfold isDigitC at this
+      simp only [Bool.and_eq_true, decide_eq_true_eq] at this
+      unfold digitVal; omega
+    have := natOfDigits_append [c] cs
+    simp only [List.singleton_append] at this
+    rw [this]
+    have h1 : natOfDigits [c] = digitVal c := by simp [natOfDigits]
+    rw [h1, List.length_cons, pow_succ]
+    have := ih h.2
+    nlinarith
+
+theorem parseBody_int (n : Bool) (u : Text) (h : isDigits u = true) :
+    parseBody n u = if natOfDigits u > lim n then .error .major else .ok ⟨sg n (natOfDigits u), 0⟩ := by
+  unfold parseBody parseParts
+  rw [splitOn_nosep '.' (sgn n u) (sgn_nodot n u (isDigits_nodot u h))]
+  simp only [List.length_singleton, show ¬ (1 > 2) by decide, if_false, parseInt64_sgn n u h, trim_sgn n u h]
+  by_cases hr : natOfDigits u > lim n
   · simp [hr]
   · simp [hr, h]
 
@@ -246,18 +326,39 @@ theorem range_guard (v v2 p : Int) (hv2 : v2 ≤ maxInt64) (hp : 0 < p) :
     have : v * p ≤ maxInt64 - v2 := (Int.le_ediv_iff_mul_le hp).mp (by omega)
     omega
 
-theorem parseUnsigned_frac (a m : Text) (ha : isDigits a = true) (hm : isDigits m = true) :
-    parseUnsigned (a ++ '.' :: m) =
-      if natOfDigits a ≥ 9223372036854775808 then .error .major
+/-- the guard on the negative side: Go's truncated division of a negative
+    numerator rounds towards zero, i.e. upwards -/
+theorem range_guard_neg (v v2 p : Int) (hv2 : 0 ≤ v2) (hv2' : v2 ≤ maxInt64) (hp : 0 < p) :
+    (v < Int.tdiv (minInt64 + v2) p) ↔ (v * p - v2 < minInt64) := by
+  have hk : minInt64 + v2 = -(-minInt64 - v2) := by ring
+  have hnn : 0 ≤ -minInt64 - v2 := by unfold minInt64; unfold maxInt64 at hv2'; omega
+  rw [hk, Int.neg_tdiv, Int.tdiv_eq_ediv_of_nonneg hnn]
+  have hmul : -v * p = -(v * p) := by ring
+  constructor
+  · intro h
+    by_contra hc
+    have : -v ≤ (-minInt64 - v2) / p := (Int.le_ediv_iff_mul_le hp).mpr (by rw [hmul]; omega)
+    omega
+  · intro h
+    by_contra hc
+    have : -v * p ≤ -minInt64 - v2 := (Int.le_ediv_iff_mul_le hp).mp (by omega)
+    rw [hmul] at this
+    omega
+
+theorem parseBody_frac (n : Bool) (a m : Text) (ha : isDigits a = true) (hm : isDigits m = true) :
+    parseBody n (a ++ '.' :: m) =
+      if natOfDigits a > lim n then .error .major
       else if natOfDigits m ≥ 9223372036854775808 then .error .minor
       else if m.length > 18 then .error .decimals
-      else if (natOfDigits a : Int) * 10 ^ m.length + natOfDigits m > maxInt64 then .error .range
-      else .ok ((natOfDigits a : Int) * 10 ^ m.length + natOfDigits m, m.length) := by
-  unfold parseUnsigned
-  rw [splitOn_append '.' a m (isDigits_nodot a ha), splitOn_nosep '.' m (isDigits_nodot m hm)]
+      else if natOfDigits a * 10 ^ m.length + natOfDigits m > lim n then .error .range
+      else .ok ⟨sg n (natOfDigits a * 10 ^ m.length + natOfDigits m), m.length⟩ := by
+  have hs : sgn n (a ++ '.' :: m) = sgn n a ++ '.' :: m := by cases n <;> rfl
+  unfold parseBody parseParts
+  rw [hs, splitOn_append '.' (sgn n a) m (sgn_nodot n a (isDigits_nodot a ha)),
+    splitOn_nosep '.' m (isDigits_nodot m hm)]
   simp only [List.length_cons, List.length_nil, show ¬ (0 + 1 + 1 > 2) by decide, if_false,
-    parseInt64_digits a ha, parseInt64_digits m hm]
-  by_cases h1 : natOfDigits a ≥ 9223372036854775808
+    parseInt64_sgn n a ha, parseInt64_digits m hm, trim_sgn n a ha]
+  by_cases h1 : natOfDigits a > lim n
   · simp [h1]
   simp only [h1, if_false, ha, Bool.not_true, Bool.false_eq_true]
   by_cases h2 : natOfDigits m ≥ 9223372036854775808
@@ -270,30 +371,101 @@ theorem parseUnsigned_frac (a m : Text) (ha : isDigits a = true) (hm : isDigits 
   rw [intPow10 _ he]
   have hp : (0 : Int) < 10 ^ m.length := by positivity
   have hv2 : (natOfDigits m : Int) ≤ maxInt64 := by unfold maxInt64; omega
-  by_cases h4 : (natOfDigits a : Int) * 10 ^ m.length + natOfDigits m > maxInt64
-  · have := (range_guard (natOfDigits a) (natOfDigits m) _ hv2 hp).mpr h4
-    simp [this, h4]
-  · have hn := (range_guard (natOfDigits a) (natOfDigits m) _ hv2 hp).not.mpr h4
-    simp only [hn, h4, if_false]
-    have hnn : (0 : Int) ≤ (natOfDigits a : Int) * 10 ^ m.length := by positivity
-    have hnm : (0 : Int) ≤ (natOfDigits m : Int) := by positivity
-    rw [wrap64_id ((natOfDigits a : Int) * 10 ^ m.length) (by unfold minInt64; omega) (by omega)]
-    rw [wrap64_id _ (by unfold minInt64; omega) (by omega)]
+  have hnm : (0 : Int) ≤ (natOfDigits m : Int) := by positivity
+  have hnn : (0 : Int) ≤ (natOfDigits a : Int) * 10 ^ m.length := by positivity
+  have hcast : ((natOfDigits a * 10 ^ m.length + natOfDigits m : Nat) : Int) =
+      (natOfDigits a : Int) * 10 ^ m.length + natOfDigits m := by push_cast; rfl
+  cases n
+  · -- non-negative side
+    simp only [lim, sg, Bool.false_eq_true, if_false] at h1 ⊢
+    rw [wrap64_id (maxInt64 - (natOfDigits m : Int)) (by unfold minInt64 maxInt64; omega) (by omega)]
+    by_cases h4 : natOfDigits a * 10 ^ m.length + natOfDigits m > 9223372036854775807
+    · have h4' : (natOfDigits a : Int) * 10 ^ m.length + natOfDigits m > maxInt64 := by
+        unfold maxInt64; rw [← hcast]; exact_mod_cast h4
+      have := (range_guard (natOfDigits a) (natOfDigits m) _ hv2 hp).mpr h4'
+      simp [this, h4]
+    · have h4' : ¬ (natOfDigits a : Int) * 10 ^ m.length + natOfDigits m > maxInt64 := by
+        unfold maxInt64; rw [← hcast]; exact_mod_cast h4
+      have hn := (range_guard (natOfDigits a) (natOfDigits m) _ hv2 hp).not.mpr h4'
+      simp only [hn, h4, if_false]
+      rw [wrap64_id ((natOfDigits a : Int) * 10 ^ m.length) (by unfold minInt64; omega) (by omega)]
+      rw [wrap64_id _ (by unfold minInt64; omega) (by omega)]
+      rw [hcast]
+  · -- negative side
+    simp only [lim, sg, if_true] at h1 ⊢
+    rw [wrap64_id (minInt64 + (natOfDigits m : Int)) (by unfold minInt64; omega) (by unfold minInt64 maxInt64; omega)]
+    have hneg : -(natOfDigits a : Int) * 10 ^ m.length = -((natOfDigits a : Int) * 10 ^ m.length) := by ring
+    by_cases h4 : natOfDigits a * 10 ^ m.length + natOfDigits m > 9223372036854775808
+    · have h4' : -(natOfDigits a : Int) * 10 ^ m.length - natOfDigits m < minInt64 := by
+        have : ((natOfDigits a * 10 ^ m.length + natOfDigits m : Nat) : Int) > 9223372036854775808 := by
+          exact_mod_cast h4
+        rw [hcast] at this
+        unfold minInt64; rw [hneg]; omega
+      have := (range_guard_neg (-(natOfDigits a : Int)) (natOfDigits m) _ hnm hv2 hp).mpr h4'
+      simp [this, h4]
+    · have h4' : ¬ (-(natOfDigits a : Int) * 10 ^ m.length - natOfDigits m < minInt64) := by
+        have : ((natOfDigits a * 10 ^ m.length + natOfDigits m : Nat) : Int) ≤ 9223372036854775808 := by
+          exact_mod_cast (by omega : natOfDigits a * 10 ^ m.length + natOfDigits m ≤ 9223372036854775808)
+        rw [hcast] at this
+        unfold minInt64; rw [hneg]; omega
+      have hn := (range_guard_neg (-(natOfDigits a : Int)) (natOfDigits m) _ hnm hv2 hp).not.mpr h4'
+      simp only [hn, h4, if_false]
+      unfold minInt64 at h4'
+      rw [hneg] at h4' ⊢
+      rw [wrap64_id (-((natOfDigits a : Int) * 10 ^ m.length)) (by unfold minInt64; omega) (by unfold maxInt64; omega)]
+      rw [wrap64_id _ (by unfold minInt64; omega) (by unfold maxInt64; omega)]
+      rw [hcast, neg_add]
+      rfl
 
-/-- whatever the unsigned parser accepts is a digit run or two digit runs around one point -/
-theorem parseUnsigned_ok_shape (u : Text) (r : Int × Nat) (h : parseUnsigned u = .ok r) :
+theorem sgn_split (n : Bool) (u h : Text) (t : List Text) (hs : splitOn '.' u = h :: t) :
+    splitOn '.' (sgn n u) = sgn n h :: t := by
+  cases n
+  · exact hs
+  · show splitOn '.' ('-' :: u) = ('-' :: h) :: t
+    rw [splitOn, hs]
+    simp
+
+/-- the first part of a text that does not begin with a minus sign does not either -/
+theorem split_head_no_minus (u h : Text) (t : List Text) (hs : splitOn '.' u = h :: t)
+    (hu : hasPrefixMinus u = false) : trimPrefixMinus h = h := by
+  cases u with
+  | nil => simp [splitOn] at hs; rw [hs.1]; rfl
+  | cons c cs =>
+    have hc : c ≠ '-' := by
+      intro e; subst e; simp [hasPrefixMinus] at hu
+    unfold splitOn at hs
+    by_cases hd : c = '.'
+    · simp only [hd, if_true] at hs
+      simp at hs; rw [hs.1]; rfl
+    · simp only [hd, if_false] at hs
+      cases hsp : splitOn '.' cs with
+      | nil => exact absurd hsp (splitOn_ne_nil _ _)
+      | cons y t' =>
+        rw [hsp] at hs
+        simp at hs
+        rw [← hs.1]
+        simp [trimPrefixMinus, hc]
+
+/-- whatever the parser accepts is, after the sign, a digit run or two digit runs around one point -/
+theorem parseBody_ok_shape (n : Bool) (u : Text) (r : Amount) (hn : n = false → hasPrefixMinus u = false)
+    (h : parseBody n u = .ok r) :
     isDigits u = true ∨ ∃ a m, u = a ++ '.' :: m ∧ isDigits a = true ∧ isDigits m = true := by
-  unfold parseUnsigned at h
+  unfold parseBody at h
   cases hs : splitOn '.' u with
   | nil => exact absurd hs (splitOn_ne_nil _ _)
   | cons x0 rest =>
-    rw [hs] at h
+    rw [sgn_split n u x0 rest hs] at h
+    have htrim : trimPrefixMinus (sgn n x0) = x0 := by
+      cases n
+      · exact split_head_no_minus u x0 rest hs (hn rfl)
+      · rfl
+    unfold parseParts at h
     cases rest with
     | nil =>
       left
       rw [splitOn_one '.' u x0 hs]
-      simp only [List.length_singleton, show ¬ (1 > 2) by decide, if_false] at h
-      cases hp : parseInt64 x0 with
+      simp only [List.length_singleton, show ¬ (1 > 2) by decide, if_false, htrim] at h
+      cases hp : parseInt64 (sgn n x0) with
       | error e => rw [hp] at h; simp at h
       | ok v =>
         rw [hp] at h
@@ -305,29 +477,21 @@ theorem parseUnsigned_ok_shape (u : Text) (r : Int × Nat) (h : parseUnsigned u 
       | cons x2 r3 => simp at h
       | nil =>
         right
-        refine ⟨x0, x1, splitOn_two '.' u x0 x1 hs, ?_, ?_⟩
-        · simp only [List.length_cons, List.length_nil, show ¬ (0 + 1 + 1 > 2) by decide, if_false] at h
-          cases hp : parseInt64 x0 with
-          | error e => rw [hp] at h; simp at h
-          | ok v =>
-            by_cases hd : isDigits x0 = true
-            · exact hd
-            · rw [hp] at h; simp [hd] at h
-        · simp only [List.length_cons, List.length_nil, show ¬ (0 + 1 + 1 > 2) by decide, if_false] at h
-          cases hp : parseInt64 x0 with
-          | error e => rw [hp] at h; simp at h
-          | ok v =>
-            rw [hp] at h
-            by_cases hd : isDigits x0 = true
-            · simp only [hd, Bool.not_true, Bool.false_eq_true, if_false] at h
-              cases hp1 : parseInt64 x1 with
-              | error e => rw [hp1] at h; simp at h
-              | ok v2 =>
-                rw [hp1] at h
-                by_cases hd1 : isDigits x1 = true
-                · exact hd1
-                · simp [hd1] at h
-            · simp [hd] at h
+        simp only [List.length_cons, List.length_nil, show ¬ (0 + 1 + 1 > 2) by decide, if_false, htrim] at h
+        cases hp : parseInt64 (sgn n x0) with
+        | error e => rw [hp] at h; simp at h
+        | ok v =>
+          rw [hp] at h
+          by_cases hd : isDigits x0 = true
+          · simp only [hd, Bool.not_true, Bool.false_eq_true, if_false] at h
+            cases hp1 : parseInt64 x1 with
+            | error e => rw [hp1] at h; simp at h
+            | ok v2 =>
+              rw [hp1] at h
+              by_cases hd1 : isDigits x1 = true
+              · exact ⟨x0, x1, splitOn_two '.' u x0 x1 hs, hd, hd1⟩
+              · simp [hd1] at h
+          · simp [hd] at h
 
 open GoblVerif.Spec.C06
 
@@ -447,180 +611,156 @@ theorem spec_frac (a m : Text) (ha : isDigits a = true) :
   obtain ⟨h1, h2⟩ := takeWhile_frac a m (isDigits_all a ha)
   simp [h1, h2]
 
-/-! ### what the unsigned parser accepts, and what it returns -/
+/-! ### what the parser accepts, and what it returns -/
 
 theorem natOfDigits_nil : natOfDigits [] = 0 := rfl
-
-/-- the 64-bit condition on the text after the optional minus sign -/
-def fitsBody (u : Text) : Prop :=
-  natOfDigits (u.takeWhile digit) < 2 ^ 63 ∧
-  natOfDigits ((u.dropWhile digit).drop 1) < 2 ^ 63 ∧
-  ((u.dropWhile digit).drop 1).length ≤ 18 ∧
-  natOfDigits (u.takeWhile digit) * 10 ^ ((u.dropWhile digit).drop 1).length
-    + natOfDigits ((u.dropWhile digit).drop 1) ≤ 2 ^ 63 - 1
 
 def unscaledBody (u : Text) : Nat :=
   natOfDigits (u.takeWhile digit) * 10 ^ ((u.dropWhile digit).drop 1).length
     + natOfDigits ((u.dropWhile digit).drop 1)
 
-theorem parseUnsigned_ok_of (u : Text) (hb : isAmountBody u = true) (hf : fitsBody u) :
-    parseUnsigned u = .ok ((unscaledBody u : Int), ((u.dropWhile digit).drop 1).length) := by
+/-- the 64-bit condition on the sign and the text after it: at most 18 decimals and
+    the digits read as one number within 2^63 below zero, 2^63−1 above -/
+def fitsBody (n : Bool) (u : Text) : Prop :=
+  ((u.dropWhile digit).drop 1).length ≤ 18 ∧ unscaledBody u ≤ lim n
+
+theorem parseBody_ok_of (n : Bool) (u : Text) (hb : isAmountBody u = true) (hf : fitsBody n u) :
+    parseBody n u = .ok ⟨sg n (unscaledBody u), ((u.dropWhile digit).drop 1).length⟩ := by
   unfold fitsBody at hf
-  unfold unscaledBody
+  unfold unscaledBody at hf ⊢
   rcases isAmountBody_shape u hb with h | ⟨a, m, rfl, ha, hm⟩
   · obtain ⟨e1, e2⟩ := spec_int u h
     rw [e1, e2] at hf ⊢
-    rw [parseUnsigned_int u h]
+    rw [parseBody_int n u h]
     simp only [natOfDigits_nil, List.length_nil, pow_zero, Nat.mul_one, Nat.add_zero] at hf ⊢
-    have : ¬ natOfDigits u ≥ 9223372036854775808 := by omega
+    have : ¬ natOfDigits u > lim n := by omega
     simp [this]
   · obtain ⟨e1, e2⟩ := spec_frac a m ha
     rw [e1, e2] at hf ⊢
-    rw [parseUnsigned_frac a m ha hm]
-    obtain ⟨f1, f2, f3, f4⟩ := hf
-    have g1 : ¬ natOfDigits a ≥ 9223372036854775808 := by omega
+    rw [parseBody_frac n a m ha hm]
+    obtain ⟨f3, f4⟩ := hf
+    have hmlt := natOfDigits_lt m (isDigits_all m hm)
+    have h18 : 10 ^ m.length ≤ 10 ^ 18 := Nat.pow_le_pow_right (by decide) f3
+    have hpos : 0 < 10 ^ m.length := by positivity
+    have hle : natOfDigits a ≤ natOfDigits a * 10 ^ m.length := Nat.le_mul_of_pos_right _ hpos
+    have g1 : ¬ natOfDigits a > lim n := by omega
     have g2 : ¬ natOfDigits m ≥ 9223372036854775808 := by omega
     have g3 : ¬ m.length > 18 := by omega
-    have g4 : ¬ ((natOfDigits a : Int) * 10 ^ m.length + natOfDigits m > maxInt64) := by
-      unfold maxInt64
-      have : ((natOfDigits a * 10 ^ m.length + natOfDigits m : Nat) : Int) ≤ 9223372036854775807 := by
-        exact_mod_cast (by omega : natOfDigits a * 10 ^ m.length + natOfDigits m ≤ 9223372036854775807)
-      push_cast at this
-      omega
+    have g4 : ¬ natOfDigits a * 10 ^ m.length + natOfDigits m > lim n := by omega
     simp only [g1, g2, g3, g4, if_false]
-    push_cast; rfl
 
-theorem parseUnsigned_ok_imp (u : Text) (r : Int × Nat) (h : parseUnsigned u = .ok r) :
-    isAmountBody u = true ∧ fitsBody u ∧
-      r = ((unscaledBody u : Int), ((u.dropWhile digit).drop 1).length) := by
-  have hshape := parseUnsigned_ok_shape u r h
+theorem parseBody_ok_imp (n : Bool) (u : Text) (r : Amount) (hn : n = false → hasPrefixMinus u = false)
+    (h : parseBody n u = .ok r) :
+    isAmountBody u = true ∧ fitsBody n u ∧
+      r = ⟨sg n (unscaledBody u), ((u.dropWhile digit).drop 1).length⟩ := by
+  have hshape := parseBody_ok_shape n u r hn h
   have hb : isAmountBody u = true := (isAmountBody_iff u).mpr hshape
-  have hf : fitsBody u := by
-    unfold fitsBody
+  have hf : fitsBody n u := by
+    unfold fitsBody unscaledBody
     rcases hshape with hd | ⟨a, m, rfl, ha, hm⟩
     · obtain ⟨e1, e2⟩ := spec_int u hd
       rw [e1, e2]
-      rw [parseUnsigned_int u hd] at h
-      by_cases hr : natOfDigits u ≥ 9223372036854775808
+      rw [parseBody_int n u hd] at h
+      by_cases hr : natOfDigits u > lim n
       · simp [hr] at h
       · simp only [natOfDigits_nil, List.length_nil, pow_zero, Nat.mul_one, Nat.add_zero]; omega
     · obtain ⟨e1, e2⟩ := spec_frac a m ha
       rw [e1, e2]
-      rw [parseUnsigned_frac a m ha hm] at h
-      by_cases g1 : natOfDigits a ≥ 9223372036854775808
+      rw [parseBody_frac n a m ha hm] at h
+      by_cases g1 : natOfDigits a > lim n
       · simp [g1] at h
       by_cases g2 : natOfDigits m ≥ 9223372036854775808
       · simp [g1, g2] at h
       by_cases g3 : m.length > 18
       · simp [g1, g2, g3] at h
-      by_cases g4 : ((natOfDigits a : Int) * 10 ^ m.length + natOfDigits m > maxInt64)
+      by_cases g4 : natOfDigits a * 10 ^ m.length + natOfDigits m > lim n
       · simp [g1, g2, g3, g4] at h
-      refine ⟨by omega, by omega, by omega, ?_⟩
-      unfold maxInt64 at g4
-      have : ((natOfDigits a * 10 ^ m.length + natOfDigits m : Nat) : Int) ≤ 9223372036854775807 := by
-        push_cast; omega
-      have := Int.ofNat_le.mp this
-      omega
+      exact ⟨by omega, by omega⟩
   refine ⟨hb, hf, ?_⟩
-  have := parseUnsigned_ok_of u hb hf
+  have := parseBody_ok_of n u hb hf
   rw [this] at h
   exact (Except.ok.inj h).symm
 
 /-! ### the shape of a written amount -/
 
-theorem digits_no_minus (A x : Text) (h : isDigits A = true) :
-    hasPrefixMinus (A ++ x) = false ∧ trimPrefixMinus (A ++ x) = A ++ x := by
-  cases A with
-  | nil => simp [isDigits] at h
-  | cons c r =>
-    have hc : isDigitC c = true := by
-      unfold isDigits at h; simp at h; exact h.1
-    have := (isDigitC_not_sign c hc).2.1
-    simp [hasPrefixMinus, trimPrefixMinus, this]
-
-theorem digits_no_minus' (A : Text) (h : isDigits A = true) :
-    hasPrefixMinus A = false ∧ trimPrefixMinus A = A := by
-  have := digits_no_minus A [] h
-  simpa using this
-
 theorem amountToString_int (v : Int) :
-    amountToString ⟨v, 0⟩ = if v < 0 then '-' :: natToDigits v.natAbs else natToDigits v.natAbs := by
-  unfold amountToString fmtInt
-  simp
+    amountToString ⟨v, 0⟩ = sgn (decide (v < 0)) (natToDigits v.natAbs) := by
+  unfold amountToString fmtInt sgn
+  by_cases h : v < 0 <;> simp [h]
 
-theorem amountToString_frac (v : Int) (e : Nat) (he0 : 0 < e) (he : e ≤ 18) (hv : v.natAbs < 2 ^ 63) :
+/-- the text of an amount with decimals, for **every** int64 value: Go's truncated
+    `/` and `%` split the value, the negations of the two parts cannot overflow -/
+theorem amountToString_frac (v : Int) (e : Nat) (he0 : 0 < e) (he : e ≤ 18)
+    (hlo : -(2 : Int) ^ 63 ≤ v) (hhi : v < (2 : Int) ^ 63) :
     amountToString ⟨v, e⟩ =
-      (if v < 0 then ['-'] else []) ++ natToDigits (v.natAbs / 10 ^ e) ++
-        '.' :: padZeros e (natToDigits (v.natAbs % 10 ^ e)) := by
+      sgn (decide (v < 0)) (natToDigits (v.natAbs / 10 ^ e) ++
+        '.' :: padZeros e (natToDigits (v.natAbs % 10 ^ e))) := by
   unfold amountToString
   have h0 : ¬ e = 0 := by omega
   have h1 : ¬ e > 1000 := by omega
   simp only [h0, h1, if_false, intPow10 e he]
-  -- absolute value
-  have habs : (if decide (v < 0) = true then wrap64 (-v) else v) = (v.natAbs : Int) := by
-    by_cases hn : v < 0
-    · simp only [hn, decide_true, if_true]
-      rw [wrap64_id _ (by unfold minInt64; omega) (by unfold maxInt64; omega)]
-      omega
-    · simp only [hn, decide_false, Bool.false_eq_true, if_false]
-      omega
-  simp only [habs]
   set n := v.natAbs with hn
   have hp : (0 : Int) < 10 ^ e := by positivity
-  have hq : Int.tdiv (n : Int) (10 ^ e) = ((n / 10 ^ e : Nat) : Int) := by
-    rw [Int.tdiv_eq_ediv_of_nonneg (by positivity)]
-    push_cast; rfl
-  rw [hq]
-  have hmul : ((n / 10 ^ e : Nat) : Int) * 10 ^ e ≤ (n : Int) := by
-    have := Nat.div_mul_le_self n (10 ^ e)
-    exact_mod_cast this
-  have hnn : (0 : Int) ≤ ((n / 10 ^ e : Nat) : Int) * 10 ^ e := by positivity
-  rw [wrap64_id (((n / 10 ^ e : Nat) : Int) * 10 ^ e) (by unfold minInt64; omega) (by unfold maxInt64; omega)]
-  have hr : (n : Int) - ((n / 10 ^ e : Nat) : Int) * 10 ^ e = ((n % 10 ^ e : Nat) : Int) := by
-    have := Nat.div_add_mod n (10 ^ e)
-    have h2 : ((10 ^ e * (n / 10 ^ e) + n % 10 ^ e : Nat) : Int) = (n : Int) := by exact_mod_cast this
-    push_cast at h2
-    push_cast
-    linarith
-  rw [hr]
-  have hrlt : n % 10 ^ e < 2 ^ 63 := by
-    have := Nat.mod_le n (10 ^ e); omega
-  generalize n % 10 ^ e = r at *
-  generalize n / 10 ^ e = q at *
-  rw [wrap64_id (r : Int) (by unfold minInt64; omega) (by unfold maxInt64; omega)]
-  unfold fmtInt fmtIntPad0
+  have hpn : 0 < 10 ^ e := by positivity
+  have h10 : 10 ≤ 10 ^ e := by
+    calc 10 = 10 ^ 1 := by norm_num
+      _ ≤ 10 ^ e := Nat.pow_le_pow_right (by decide) he0
+  have h18 : 10 ^ e ≤ 10 ^ 18 := Nat.pow_le_pow_right (by decide) he
+  have hq10 : n / 10 ^ e ≤ n / 10 := Nat.div_le_div_left h10 (by decide)
+  have hrlt : n % 10 ^ e < 10 ^ e := Nat.mod_lt _ hpn
+  have hqd : Int.tdiv (n : Int) (10 ^ e) = ((n / 10 ^ e : Nat) : Int) := by
+    rw [Int.tdiv_eq_ediv_of_nonneg (by positivity)]; push_cast; rfl
+  have hrm : Int.tmod (n : Int) (10 ^ e) = ((n % 10 ^ e : Nat) : Int) := by
+    rw [Int.tmod_eq_emod_of_nonneg (by positivity)]; push_cast; rfl
+  have hnb : n ≤ 2 ^ 63 := by omega
+  generalize hq : n / 10 ^ e = q at *
+  generalize hr : n % 10 ^ e = r at *
   have g1 : ¬ ((q : Int) < 0) := by omega
   have g2 : ¬ ((r : Int) < 0) := by omega
-  simp only [g1, g2, if_false, Int.natAbs_natCast]
-  by_cases hneg : v < 0 <;> simp [hneg]
+  by_cases hneg : v < 0
+  · have hv : v = -(n : Int) := by omega
+    simp only [hneg, decide_true, if_true, sgn]
+    rw [hv, Int.neg_tdiv, Int.neg_tmod, hqd, hrm, neg_neg, neg_neg]
+    rw [wrap64_id (q : Int) (by unfold minInt64; omega) (by unfold maxInt64; omega)]
+    rw [wrap64_id (r : Int) (by unfold minInt64; omega) (by unfold maxInt64; omega)]
+    unfold fmtInt fmtIntPad0
+    simp only [g1, g2, if_false, Int.natAbs_natCast]
+    simp
+  · have hv : v = (n : Int) := by omega
+    simp only [hneg, decide_false, Bool.false_eq_true, if_false, sgn]
+    rw [hv, hqd, hrm]
+    unfold fmtInt fmtIntPad0
+    simp only [g1, g2, if_false, Int.natAbs_natCast]
+    simp
 
-theorem amountFromString_plain (body : Text) (hd : hasPrefixMinus body = false ∧ trimPrefixMinus body = body)
-    (r : Int × Nat) (hp : parseUnsigned body = .ok r) :
-    amountFromString body = .ok ⟨r.1, r.2⟩ := by
-  unfold amountFromString
-  rw [hd.1, hd.2, hp]; simp
+/-- `AmountFromString` of a text given as sign and rest -/
+theorem amountFromString_sgn (n : Bool) (u : Text) (hn : n = false → hasPrefixMinus u = false) :
+    amountFromString (sgn n u) = parseBody n u := by
+  unfold amountFromString parseBody
+  cases n
+  · simp only [sgn, Bool.false_eq_true, if_false, hn rfl]
+  · rfl
 
-theorem amountFromString_minus (body : Text) (r : Int × Nat) (hp : parseUnsigned body = .ok r) :
-    amountFromString ('-' :: body) = .ok ⟨wrap64 (-r.1), r.2⟩ := by
-  unfold amountFromString
-  show (match parseUnsigned body with
-    | .error e => Except.error e
-    | .ok (v, e) => Except.ok (⟨if true = true then wrap64 (-v) else v, e⟩ : Amount)) = _
-  rw [hp]; simp
-
-/-- the written text of an in-range amount: sign, then a body the unsigned parser reads back -/
-theorem amountToString_parse (v : Int) (e : Nat) (he : e ≤ 18) (hv : v.natAbs < 2 ^ 63) :
-    ∃ body, amountToString ⟨v, e⟩ = (if v < 0 then '-' :: body else body) ∧
-      (hasPrefixMinus body = false ∧ trimPrefixMinus body = body) ∧
+/-- the written text of an int64 amount: sign, then a body the parser reads back -/
+theorem amountToString_parse (v : Int) (e : Nat) (he : e ≤ 18)
+    (hlo : -(2 : Int) ^ 63 ≤ v) (hhi : v < (2 : Int) ^ 63) :
+    ∃ body, amountToString ⟨v, e⟩ = sgn (decide (v < 0)) body ∧
+      hasPrefixMinus body = false ∧
       isAmountBody body = true ∧
-      parseUnsigned body = .ok ((v.natAbs : Int), e) := by
+      parseBody (decide (v < 0)) body = .ok ⟨v, e⟩ := by
+  have hlim : v.natAbs ≤ lim (decide (v < 0)) := by
+    unfold lim
+    by_cases hneg : v < 0 <;> simp only [hneg, decide_true, decide_false, if_true, Bool.false_eq_true, if_false] <;> omega
+  have hsg : sg (decide (v < 0)) v.natAbs = v := by
+    unfold sg
+    by_cases hneg : v < 0 <;> simp only [hneg, decide_true, decide_false, if_true, Bool.false_eq_true, if_false] <;> omega
   by_cases h0 : e = 0
   · subst h0
-    refine ⟨natToDigits v.natAbs, amountToString_int v, digits_no_minus' _ (natToDigits_isDigits _),
+    refine ⟨natToDigits v.natAbs, amountToString_int v, (digits_no_minus' _ (natToDigits_isDigits _)).1,
       isAmountBody_int _ (natToDigits_isDigits _), ?_⟩
-    rw [parseUnsigned_int _ (natToDigits_isDigits _), natToDigits_val]
-    have : ¬ v.natAbs ≥ 9223372036854775808 := by omega
-    simp [this]
+    rw [parseBody_int _ _ (natToDigits_isDigits _), natToDigits_val]
+    have : ¬ v.natAbs > lim (decide (v < 0)) := by omega
+    simp only [this, if_false, hsg]
   · have he0 : 0 < e := by omega
     set n := v.natAbs with hn
     have hpos : 0 < 10 ^ e := by positivity
@@ -636,117 +776,92 @@ theorem amountToString_parse (v : Int) (e : Nat) (he : e ≤ 18) (hv : v.natAbs 
       have : padZeros e (natToDigits (n % 10 ^ e)) ≠ [] := by
         intro hc; rw [hc] at hMlen; simp at hMlen; omega
       simp [this]
-    refine ⟨natToDigits (n / 10 ^ e) ++ '.' :: padZeros e (natToDigits (n % 10 ^ e)), ?_,
-      digits_no_minus _ _ hA, isAmountBody_frac _ _ hA hM, ?_⟩
-    · rw [amountToString_frac v e he0 he hv]
-      by_cases hneg : v < 0 <;> simp [hneg, hn]
-    · rw [parseUnsigned_frac _ _ hA hM, natToDigits_val, padZeros_val, natToDigits_val, hMlen]
-      have hdm := Nat.div_add_mod n (10 ^ e)
-      have hq : n / 10 ^ e ≤ n := Nat.div_le_self _ _
-      have h18 : 10 ^ e ≤ 10 ^ 18 := Nat.pow_le_pow_right (by decide) he
-      have g1 : ¬ n / 10 ^ e ≥ 9223372036854775808 := by omega
-      have g2 : ¬ n % 10 ^ e ≥ 9223372036854775808 := by omega
-      have g3 : ¬ e > 18 := by omega
-      have key : ((n / 10 ^ e : Nat) : Int) * 10 ^ e + ((n % 10 ^ e : Nat) : Int) = (n : Int) := by
-        have : ((10 ^ e * (n / 10 ^ e) + n % 10 ^ e : Nat) : Int) = (n : Int) := by exact_mod_cast hdm
-        push_cast at this ⊢
-        linarith
-      have g4 : ¬ ((n : Int) > maxInt64) := by
-        unfold maxInt64; omega
-      simp only [g1, g2, g3, if_false, key, g4]
+    refine ⟨natToDigits (n / 10 ^ e) ++ '.' :: padZeros e (natToDigits (n % 10 ^ e)),
+      amountToString_frac v e he0 he hlo hhi, (digits_no_minus _ _ hA).1, isAmountBody_frac _ _ hA hM, ?_⟩
+    rw [parseBody_frac _ _ _ hA hM, natToDigits_val, padZeros_val, natToDigits_val, hMlen]
+    have hdm := Nat.div_add_mod n (10 ^ e)
+    have hq : n / 10 ^ e ≤ n := Nat.div_le_self _ _
+    have h18 : 10 ^ e ≤ 10 ^ 18 := Nat.pow_le_pow_right (by decide) he
+    have key : n / 10 ^ e * 10 ^ e + n % 10 ^ e = n := by rw [Nat.mul_comm]; exact hdm
+    have g1 : ¬ n / 10 ^ e > lim (decide (v < 0)) := by omega
+    have g2 : ¬ n % 10 ^ e ≥ 9223372036854775808 := by omega
+    have g3 : ¬ e > 18 := by omega
+    have g4 : ¬ n > lim (decide (v < 0)) := by omega
+    simp only [g1, g2, g3, if_false, key, g4, hsg]
 
-theorem fits64_iff (s : Text) : fits64 s = true ↔ fitsBody (stripMinus s) := by
-  unfold fits64 fitsBody unscaled decimals intDigits fracDigits
-  simp only [Bool.and_eq_true, decide_eq_true_eq, digitsValue_eq]
-  constructor
-  · rintro ⟨⟨⟨h1, h2⟩, h3⟩, h4⟩; exact ⟨of_decide_eq_true h1, of_decide_eq_true h2, h3, of_decide_eq_true h4⟩
-  · rintro ⟨h1, h2, h3, h4⟩; exact ⟨⟨⟨decide_eq_true h1, decide_eq_true h2⟩, h3⟩, decide_eq_true h4⟩
+theorem fits64_iff (s : Text) : fits64 s = true ↔ fitsBody (negative s) (stripMinus s) := by
+  unfold fits64 fitsBody signedUnscaled
+  have hu : unscaled s = unscaledBody (stripMinus s) := rfl
+  have hd : decimals s = ((stripMinus s).dropWhile digit |>.drop 1).length := rfl
+  rw [hu, hd]
+  simp only [Bool.and_eq_true, decide_eq_true_eq]
+  unfold lim
+  by_cases hn : negative s = true
+  · simp only [hn, if_true]
+    constructor
+    · rintro ⟨⟨h1, h2⟩, _⟩; exact ⟨h1, by omega⟩
+    · rintro ⟨h1, h2⟩; exact ⟨⟨h1, by omega⟩, by omega⟩
+  · simp only [hn, Bool.false_eq_true, if_false]
+    constructor
+    · rintro ⟨⟨h1, _⟩, h3⟩; exact ⟨h1, by omega⟩
+    · rintro ⟨h1, h2⟩; exact ⟨⟨h1, by omega⟩, by omega⟩
 
-/-- `amountFromString` in terms of the unsigned parser on the stripped text -/
+theorem sgn_strip (s : Text) : sgn (negative s) (stripMinus s) = s := by
+  cases s with
+  | nil => rfl
+  | cons c r =>
+    by_cases h : c = '-'
+    · subst h; rfl
+    · simp [negative, stripMinus, sgn, h]
+
+theorem strip_no_minus (s : Text) (h : negative s = false) : hasPrefixMinus (stripMinus s) = false := by
+  cases s with
+  | nil => rfl
+  | cons c r =>
+    by_cases hc : c = '-'
+    · subst hc; simp [negative] at h
+    · simp [stripMinus, hasPrefixMinus, hc]
+
+/-- `amountFromString` in terms of the sign of the text and the text after it -/
 theorem amountFromString_eq (s : Text) :
-    amountFromString s =
-      match parseUnsigned (stripMinus s) with
-      | .error e => .error e
-      | .ok (v, e) => .ok ⟨if negative s then wrap64 (-v) else v, e⟩ := by
-  unfold amountFromString
-  rw [stripMinus_eq, negative_eq]
-  rfl
+    amountFromString s = parseBody (negative s) (stripMinus s) := by
+  have := amountFromString_sgn (negative s) (stripMinus s) (strip_no_minus s)
+  rw [sgn_strip] at this
+  exact this
 
-theorem unscaledBody_le (u : Text) (h : fitsBody u) : (unscaledBody u : Int) ≤ maxInt64 := by
-  unfold fitsBody at h; unfold unscaledBody maxInt64
-  have := h.2.2.2
-  omega
+/-- what is accepted, and as what: exactly the fitting members, read as the digits
+    with the sign of the text at the written number of decimals -/
+theorem amountFromString_ok_iff (s : Text) (a : Amount) :
+    amountFromString s = .ok a ↔
+      (isAmountText s = true ∧ fits64 s = true ∧ a = ⟨signedUnscaled s, decimals s⟩) := by
+  rw [amountFromString_eq, fits64_iff]
+  have hval : sg (negative s) (unscaledBody (stripMinus s)) = signedUnscaled s := by
+    unfold sg signedUnscaled; rfl
+  have hdec : ((stripMinus s).dropWhile digit |>.drop 1).length = decimals s := rfl
+  unfold isAmountText
+  constructor
+  · intro h
+    obtain ⟨h1, h2, h3⟩ := parseBody_ok_imp _ _ a (strip_no_minus s) h
+    rw [hval, hdec] at h3
+    exact ⟨h1, h2, h3⟩
+  · rintro ⟨h1, h2, h3⟩
+    rw [parseBody_ok_of _ _ h1 h2, hval, hdec, h3]
 
-/-! ### percentages: the float detour is exact on the scaled domain -/
+/-! ### percentages: the conversions only move the decimal point -/
 
-theorem rha_mul_cancel (n d : ℤ) (hd : 0 < d) : rha (n * d) d = n := by
-  unfold rha
-  by_cases h : 0 ≤ n * d
-  · rw [if_pos h]
-    have : 2 * (n * d) + d = d + (2 * d) * n := by ring
-    rw [this, Int.add_mul_ediv_left _ _ (by omega : (2 * d) ≠ 0)]
-    have : d / (2 * d) = 0 := Int.ediv_eq_zero_of_lt (by omega) (by omega)
-    omega
-  · rw [if_neg h]
-    have : 2 * -(n * d) + d = d + (2 * d) * (-n) := by ring
-    rw [this, Int.add_mul_ediv_left _ _ (by omega : (2 * d) ≠ 0)]
-    have : d / (2 * d) = 0 := Int.ediv_eq_zero_of_lt (by omega) (by omega)
-    omega
-
-theorem ofAmount_exact (a : Amount) (hv : |a.value * 100| < 2 ^ 52) :
-    (Pct.ofAmount a).amount = ⟨a.value, a.exp + 2⟩ := by
-  unfold Pct.ofAmount
-  have hr : a.rescale (a.exp + 2) = ⟨a.value * 100, a.exp + 2⟩ := by
-    unfold Amount.rescale
-    have h1 : ¬ a.exp > a.exp + 2 := by omega
-    have h2 : a.exp < a.exp + 2 := by omega
-    simp only [h1, h2, if_true, if_false]
-    congr 1
-    have : a.exp + 2 - a.exp = 2 := by omega
-    rw [this]; rfl
-  rw [hr, divide_exact _ factor100 (by decide) (by simpa [factor100, pow10] using hv) (by decide)]
-  unfold Amount.divX factor100
-  simp only [pow10, pow_zero, mul_one]
-  have hpos : (0:ℤ) < 100 := by decide
-  simp only [hpos, if_true]
-  congr 1
-  exact rha_mul_cancel a.value 100 hpos
+theorem ofAmount_exact (a : Amount) : (Pct.ofAmount a).amount = ⟨a.value, a.exp + 2⟩ := rfl
 
 /-- `Percentage.Amount()`: the value in percent, with two decimals fewer -/
-theorem toAmount_exact (v : ℤ) (e : ℕ) (hv : |v * 100| < 2 ^ 52) :
+theorem toAmount_exact (v : ℤ) (e : ℕ) :
     Pct.toAmount ⟨⟨v, e⟩⟩ = ⟨v * 10 ^ (2 - e), e - 2⟩ := by
-  unfold Pct.toAmount
-  have hm : (⟨v, e⟩ : Amount).multiply factor100 = ⟨v * 100, e⟩ := by
-    rw [multiply_exact _ _ (by simpa [factor100] using hv) (by decide)]
-    unfold Amount.mulX factor100
-    simp only [pow10, pow_zero]
-    congr 1
-    have := rha_mul_cancel (v * 100) 1 (by decide)
-    simpa using this
-  simp only [hm]
-  rw [rescale_exact _ _ (by simpa using hv) (by simp; omega)]
-  unfold Amount.rescaleX
-  simp only
-  by_cases h2 : 2 ≤ e
-  · have h : e > e - 2 := by omega
-    simp only [h, if_true]
-    have e1 : e - (e - 2) = 2 := by omega
-    have e2 : 2 - e = 0 := by omega
-    rw [e1, e2]
-    congr 1
-    simp only [pow_zero, mul_one]
-    exact rha_mul_cancel v (pow10 2) (by decide)
-  · by_cases h1 : e = 1
-    · subst h1
-      simp only [show (1:ℕ) > 1 - 2 by decide, if_true]
-      congr 1
-      have : v * 100 = (v * 10) * pow10 (1 - (1 - 2)) := by
-        show v * 100 = v * 10 * (10:ℤ) ^ 1; ring
-      rw [this]
-      exact rha_mul_cancel (v * 10) _ (by decide)
-    · have h0 : e = 0 := by omega
-      subst h0
-      simp
+  unfold Pct.toAmount Amount.rescaleUp Amount.rescale
+  by_cases h2 : 2 > e
+  · have h3 : ¬ e > 2 := by omega
+    have h4 : e < 2 := by omega
+    have h5 : 2 - 2 = e - 2 := by omega
+    simp only [h2, h3, if_true, if_false, pow10, h5]
+  · have h5 : 2 - e = 0 := by omega
+    simp only [h2, if_false, h5, pow_zero, mul_one]
 
 /-! ### the JSON string decoder on the spellings of Spec/C06 -/
 
